@@ -272,7 +272,7 @@ def judge_edges(verdict, rep, owns, preds, suite_name):
             else:
                 foreign[name] = total
         else:
-            if name in preds:
+            if name.split('/')[0] in preds:
                 for it in items:
                     verdict.add({'kind': 'predicate', 'key': name, 'detail': it['detail'], 'last': it.get('last'), 'replay': it['replay'], 'suite': suite_name, 'count': 1})
             else:
